@@ -379,8 +379,9 @@ def rule_no_swallow(ctx, rep):
     rep.rule(
         "R-NO-SWALLOW",
         "on the dispatch path from a reported location to its rewrite (libcst_transformer.py, base_visitor.py) a broad exception handler "
-        "either re-raises or records the failure (add_failure / report_unfixed); swallowing an error raised by on_result_found leaves a "
-        "flagged location neither rewritten nor listed as failed",
+        "either re-raises or lists the file as failed (add_failure, which also gives up on the file: nothing is written); a handler that "
+        "only logs or only marks one finding as unfixed lets the visitor carry on, so a file that could not be transformed is partly "
+        "rewritten, written back, and never listed as failed",
         min_instances=2,
     )
     n = 0
@@ -394,12 +395,40 @@ def rule_no_swallow(ctx, rep):
                         continue
                     n += 1
                     reraises = any(isinstance(x, ast.Raise) for st in h.body for x in ast.walk(st))
-                    records = any(isinstance(x, ast.Call) and last_attr(x.func) in ("add_failure", "report_unfixed", "add_unfixed_findings") for st in h.body for x in ast.walk(st))
+                    records = any(isinstance(x, ast.Call) and last_attr(x.func) == "add_failure" for st in h.body for x in ast.walk(st))
                     rep.check("R-NO-SWALLOW", fn.qname, fn.loc(h), reraises or records, "broad-handler",
                               f"`except {', '.join(sorted(types))}` in {fn.name} neither re-raises nor records a failure: an error while rewriting a reported "
                               "location is silently dropped (location not rewritten, file not listed as failed)")
     if n < 2:
         raise AnalysisError("broad handlers of the libcst pipeline not found (anchor vanished)")
+    # the same holds inside the codemods themselves: a broad handler around code that can report a change (a hook body, a helper that
+    # rewrites) must not swallow -- narrow `try: get_metadata(...) except Exception` probes do not reach such code and are left alone
+    from ..sites import worker_fn
+
+    seen_mods = ("codemodder.codemods.libcst_transformer", "codemodder.codemods.base_visitor", "codemodder.codemods.api")
+    reporters = {q for q, f in ctx.prog.functions.items() if f.name in ("report_change", "report_change_for_line", "add_change", "add_change_from_position", "on_result_found")}
+    for q in sorted(ctx.cg.reachable([worker_fn(ctx).qname])):
+        fn = ctx.prog.functions[q]
+        if fn.module.name in seen_mods or fn.cls is None or fn.module.name.startswith("codemodder.codemods.") and fn.module.name.endswith(("_transformer",)):
+            continue
+        r = None
+        for tr in [t for t in walk_no_nested(fn.node) if isinstance(t, ast.Try)]:
+            broad = [h for h in tr.handlers if h.type is None or ({last_attr(e) or unparse(e) for e in (h.type.elts if isinstance(h.type, ast.Tuple) else [h.type])} & {"Exception", "BaseException"})]
+            if not broad:
+                continue
+            r = r or ctx.resolver(fn)
+            reaches = False
+            for c in [x for st in tr.body for x in ast.walk(st) if isinstance(x, ast.Call)]:
+                for t in r.resolve_call(c):
+                    if isinstance(t, FuncInfo) and (t.qname in reporters or ctx.cg.reachable([t.qname]) & reporters):
+                        reaches = True
+            if not reaches:
+                continue
+            for h in broad:
+                reraises = any(isinstance(x, ast.Raise) for st in h.body for x in ast.walk(st))
+                records = any(isinstance(x, ast.Call) and last_attr(x.func) == "add_failure" for st in h.body for x in ast.walk(st))
+                rep.check("R-NO-SWALLOW", fn.qname, fn.loc(h), reraises or records, "broad-handler-around-rewrite",
+                          f"a broad handler in {fn.name} swallows errors of code that rewrites / reports changes: the file is partly rewritten and never listed as failed")
 
 
 def metadata_consumers(ctx) -> dict[str, set[str]]:
